@@ -140,6 +140,11 @@ fn gen_type(g: &mut Gen, depth: u32) -> Type {
         }
         6 | 7 => Type::Struct(gen_fields(g, d)),
         8 | 9 => {
+            if g.r.chance(1, 20) {
+                // around the u8 / u16 boundary of the variant index
+                let n = *g.r.pick(&[255usize, 256, 257, 300]);
+                return Type::Enum((0..n).map(|i| (format!("v{}", i), if i % 64 == 63 || i + 1 == n { Fields::Unnamed(vec![Type::U8]) } else { Fields::None })).collect());
+            }
             let n = g.r.range(1, 4) as usize;
             let names = distinct_names(g, n);
             Type::Enum(names.into_iter().map(|nm| { let f = gen_fields(g, d); (nm, f) }).collect())
@@ -422,7 +427,8 @@ fn gen_value(g: &mut Gen, t: &Type) -> Value {
         }
         Type::Struct(f) => gen_fields_value(g, f),
         Type::Enum(vs) => {
-            let (n, f) = &vs[g.r.below(vs.len() as u64) as usize];
+            let idx = if vs.len() > 200 && g.r.chance(1, 2) { *g.r.pick(&[0usize, 254, vs.len() - 2, vs.len() - 1]) } else { g.r.below(vs.len() as u64) as usize };
+            let (n, f) = &vs[idx];
             let mut m = Map::new(); m.insert(n.clone(), gen_fields_value(g, f)); Value::Object(m)
         }
         Type::TaggedEnum(vs) => {
